@@ -249,6 +249,7 @@ theorem fillRow_indep (q : Query) (hf : q.fill ≠ .previous) (prev : List Val) 
   | null => rfl
   | previous => exact absurd h hf
   | number k => rfl
+  | linear => rfl
 
 /-- the row of one bucket when the fill mode does not look at the previous row. -/
 def Query.bucketRow (q : Query) (rows : List Row) (b : Int) : Option OutRow :=
